@@ -76,8 +76,59 @@ def containers_wrap_element_errors():
     return 'bool', cbool(ok)
 
 
+def _starts_with_check_type(clsname, fname):
+    f = find_func(_cls(clsname), fname)
+    body = [b for b in f.body if not (isinstance(b, ast.Expr) and isinstance(getattr(b, 'value', None), ast.Constant))]
+    return src(body[0]).replace(' ', '') == 'self.check_type(value)'
+
+
+def sequences_check_before_import():
+    """ArrayOf/TupleOf.import_value call self.check_type(value) before iterating"""
+    return 'bool', cbool(_starts_with_check_type('ArrayOf', 'import_value') and _starts_with_check_type('TupleOf', 'import_value'))
+
+
+def sequences_reject_str_bytes_dict():
+    """check_type of ArrayOf/TupleOf starts with the isinstance(value, (str, bytes, dict)) rejection"""
+    ok = True
+    for c in ('ArrayOf', 'TupleOf'):
+        f = find_func(_cls(c), 'check_type')
+        first = f.body[0]
+        ok = ok and isinstance(first, ast.If) and src(first.test).replace(' ', '') == 'isinstance(value,(str,bytes,dict))' \
+            and 'raiseWrongTypeError' in src(first.body[-1]).replace(' ', '')
+    return 'bool', cbool(ok)
+
+
+def struct_requires_dict():
+    """StructOf.check_type starts with: if not isinstance(value, dict): raise WrongTypeError"""
+    f = find_func(_cls('StructOf'), 'check_type')
+    first = f.body[0]
+    ok = isinstance(first, ast.If) and src(first.test).replace(' ', '') == 'notisinstance(value,dict)' \
+        and 'raiseWrongTypeError' in src(first.body[-1]).replace(' ', '')
+    return 'bool', cbool(ok)
+
+
+def blob_import_strict():
+    """BLOBType.import_value decodes with validate=True"""
+    s = src(find_func(_cls('BLOBType'), 'import_value')).replace(' ', '')
+    return 'bool', cbool('b64decode(value,validate=True)' in s)
+
+
+def struct_checks_missing_after_merge():
+    """StructOf.__call__/validate call self.check_missing(result, ...) before returning"""
+    ok = True
+    for fn, arg in (('__call__', 'self.client'), ('validate', 'True')):
+        s = src(find_func(_cls('StructOf'), fn)).replace(' ', '')
+        ok = ok and f'self.check_missing(result,{arg})' in s
+    cm = src(find_func(_cls('StructOf'), 'check_missing')).replace(' ', '')
+    ok = ok and 'missing=set(self.members)-set(result)' in cm and 'missing-=set(self.optional)' in cm \
+        and 'raiseWrongTypeError' in cm
+    return 'bool', cbool(ok)
+
+
 FACTS = [default_min_int, default_max_int, unlimited_is_2_64, clamp_is_median_of_sorted, float_validate_shape,
-         int_validate_shape, scaled_validate_shape, generic_import_is_call, containers_wrap_element_errors]
+         int_validate_shape, scaled_validate_shape, generic_import_is_call, containers_wrap_element_errors,
+         sequences_check_before_import, sequences_reject_str_bytes_dict, struct_requires_dict, blob_import_strict,
+         struct_checks_missing_after_merge]
 
 _FP = ['FloatRange', 'IntRange', 'ScaledInteger', 'EnumType', 'BLOBType', 'StringType', 'BoolType', 'ArrayOf', 'TupleOf',
        'StructOf']
